@@ -7,7 +7,13 @@
 //! polled by hand until nothing is ready, and the events seen by the user, the frames seen by the
 //! remote side, the `dial()` calls with their results and the private bookkeeping (published by
 //! the loop itself every time it comes back to its `select!`) are printed.
-//! Case and trace format: see coq/C13/Glue.v.
+//! Case and trace format: see coq/C13/Glue1.v.
+//!
+//! Two-node cases (first number 1000002, format in coq/C13/Glue2.v): TWO real protocol objects, each
+//! with its own scripted environment; a substream that one of them opens to its peer 0 is handed to
+//! the other one as an inbound substream, the bytes one side writes are carried to the other side
+//! by the harness — any prefix of them (a connection fault at any byte offset), under a
+//! fragmentation / stall / end-of-stream / error script for the reads.
 use crate::util::*;
 use futures::{FutureExt, StreamExt};
 use litep2p::{
@@ -21,6 +27,7 @@ use litep2p::{
     PeerId,
 };
 use std::{
+    cell::Cell,
     collections::VecDeque,
     io,
     panic::{catch_unwind, AssertUnwindSafe},
@@ -32,7 +39,11 @@ use std::{
 };
 use tokio::io::{AsyncRead, AsyncWrite, ReadBuf};
 
+#[path = "gen_c13_tables.rs"]
+mod gen_tables;
+
 const NPEERS: usize = 4;
+const TWO_NODE: u64 = 1_000_002;
 /// Fallback protocol names, by the number used in cases and traces (0 = the main protocol).
 const FALLBACK_NAMES: [&str; 2] = ["/verif/req/0", "/verif/req/00"];
 
@@ -49,6 +60,24 @@ fn fallback_id(name: &Option<litep2p::types::protocol::ProtocolName>) -> u64 {
 
 // ------------------------------------------------------------------ byte carrier
 
+/// What the next read of a scripted carrier does (V.C04.Model.rdev).
+#[derive(Clone, Copy)]
+enum RdEv {
+    Pending,
+    Chunk(u64),
+    Eof,
+    Err,
+}
+
+thread_local! {
+    /// script events consumed on this thread: the settle loop goes on while it moves
+    static PROGRESS: Cell<u64> = const { Cell::new(0) };
+}
+
+fn progress() -> u64 {
+    PROGRESS.with(|p| p.get())
+}
+
 #[derive(Default)]
 struct CarrierInner {
     gate: u8, // 0 = writes block, 1 = writes succeed, 2 = writes fail
@@ -58,6 +87,8 @@ struct CarrierInner {
     outbox: Vec<u8>,
     read_waker: Option<Waker>,
     write_waker: Option<Waker>,
+    /// `Some`: reads follow the script; once it is used up, whatever is left arrives, then the stream ends
+    script: Option<VecDeque<RdEv>>,
 }
 
 #[derive(Clone)]
@@ -95,8 +126,18 @@ impl Carrier {
             w.wake();
         }
     }
-    /// A whole unsigned-varint frame that arrived at the remote end, if any.
-    fn take_frame(&self) -> Option<Vec<u8>> {
+    /// The bytes `wire` are in flight towards the reader, which will see them under `script`.
+    fn deliver(&self, wire: &[u8], script: Vec<RdEv>) {
+        let mut c = self.0.lock().unwrap();
+        c.inbox = wire.iter().copied().collect();
+        c.script = Some(script.into_iter().collect());
+        if let Some(w) = c.read_waker.take() {
+            w.wake();
+        }
+    }
+    /// A whole unsigned-varint frame that arrived at the remote end, if any, together with the bytes
+    /// it was made of (length prefix included).
+    fn take_frame_raw(&self) -> Option<(Vec<u8>, Vec<u8>)> {
         let mut c = self.0.lock().unwrap();
         let mut len = 0usize;
         let mut shift = 0;
@@ -114,14 +155,33 @@ impl Carrier {
             return None;
         }
         let frame = c.outbox[i..i + len].to_vec();
-        c.outbox.drain(..i + len);
-        Some(frame)
+        let raw: Vec<u8> = c.outbox.drain(..i + len).collect();
+        Some((frame, raw))
     }
 }
 
 impl AsyncRead for Carrier {
     fn poll_read(self: Pin<&mut Self>, cx: &mut Context<'_>, buf: &mut ReadBuf<'_>) -> Poll<io::Result<()>> {
         let mut c = self.0.lock().unwrap();
+        if c.script.is_some() {
+            PROGRESS.with(|p| p.set(p.get() + 1));
+            let ev = c.script.as_mut().and_then(|s| s.pop_front()).unwrap_or(RdEv::Chunk(1 << 32));
+            return match ev {
+                RdEv::Pending => {
+                    cx.waker().wake_by_ref();
+                    Poll::Pending
+                }
+                RdEv::Chunk(n) => {
+                    // zero bytes = end of stream
+                    let k = (n as usize).min(buf.remaining()).min(c.inbox.len());
+                    let bytes: Vec<u8> = c.inbox.drain(..k).collect();
+                    buf.put_slice(&bytes);
+                    Poll::Ready(Ok(()))
+                }
+                RdEv::Eof => Poll::Ready(Ok(())),
+                RdEv::Err => Poll::Ready(Err(io::ErrorKind::ConnectionReset.into())),
+            };
+        }
         if !c.inbox.is_empty() {
             let n = buf.remaining().min(c.inbox.len());
             let bytes: Vec<u8> = c.inbox.drain(..n).collect();
@@ -228,6 +288,51 @@ struct Chan {
     carrier: Carrier,
     out: bool,
     seen: bool,
+    /// one end of a link between the two nodes of a two-node case: its read side is fed by the
+    /// courier only
+    linked: bool,
+    /// the first frame written on this carrier, as the bytes that went out (length prefix included)
+    wrote: Option<Vec<u8>>,
+}
+
+/// The configuration of one protocol object: the header of a case.
+#[derive(Clone, Copy)]
+struct Header {
+    max_inb: u64,
+    ndial: u64,
+    max_size: u64,
+    flags: u64,
+    ccap: u64,
+}
+
+impl Header {
+    fn selfp(&self) -> bool {
+        self.flags & 1 != 0
+    }
+    /// (what is given to ConfigBuilder::with_timeout, the timeout in force)
+    fn timeout(&self) -> (Option<Duration>, u64) {
+        match (self.flags >> 1) & 3 {
+            0 => (None, DEFAULT_TMO_MS),
+            1 => (Some(Duration::from_millis(DEFAULT_TMO_MS)), DEFAULT_TMO_MS),
+            2 => (Some(Duration::from_millis(1001)), 1001),
+            _ => (Some(Duration::from_millis(7777)), 7777),
+        }
+    }
+    /// start value of the request-id allocator
+    fn rid0(&self) -> usize {
+        match (self.flags >> 3) & 3 {
+            0 => 0,
+            1 => usize::MAX - 2,
+            2 => usize::MAX - 17,
+            _ => usize::MAX,
+        }
+    }
+    fn keep_alive_tiny(&self) -> bool {
+        self.flags & 32 != 0
+    }
+    fn valid(&self) -> bool {
+        self.max_size <= 1 << 20 && self.ccap <= 4096 && self.flags <= 63
+    }
 }
 
 struct World {
@@ -250,11 +355,74 @@ struct World {
     clogged: bool,
     /// the environment's books and the manager's command channel disagree about the dials
     books_off: bool,
+    /// the bookkeeping this world's loop published when it last came back to its `select!`
+    last_dump: Option<rrv::VerifDump>,
+    /// start value of the id allocator: ids are printed relative to it (modulo 2^64)
+    rid0: usize,
+    tmo_ms: u64,
 }
 
 impl World {
+    fn new(h: &Header, mode: Mode) -> World {
+        let channels = match mode {
+            Some(event_cap) => Some((event_cap, if h.ccap > 0 { h.ccap as usize } else { 4096 })),
+            None => if h.ccap > 0 { Some((4096, h.ccap as usize)) } else { None },
+        };
+        let mut peers: Vec<PeerId> = (0..NPEERS).map(|_| PeerId::random()).collect();
+        let ndial = (h.ndial as usize).min(NPEERS);
+        let dialable: Vec<PeerId> = peers.iter().take(ndial).cloned().collect();
+        rrv::reset_published();
+        rrv::verif_dial_log::enable(true);
+        let (timeout, tmo_ms) = h.timeout();
+        let keep_alive = if h.keep_alive_tiny() { Duration::from_nanos(1) } else { Duration::from_secs(1_000_000_000) };
+        let (mut proto, handle) = VerifProtocol::new_full_keep_alive(
+            h.max_size as usize,
+            timeout,
+            if h.max_inb == 0 { None } else { Some((h.max_inb - 1) as usize) },
+            &dialable,
+            &FALLBACK_NAMES,
+            channels,
+            keep_alive,
+        );
+        proto.set_next_request_id(h.rid0());
+        if h.selfp() {
+            peers[NPEERS - 1] = proto.local_peer();
+        }
+        let run = Some(proto.take_run());
+        World {
+            run,
+            peers,
+            proto,
+            handle: Some(handle),
+            connected: vec![false; NPEERS],
+            opens: Vec::new(),
+            chans: Vec::new(),
+            hpend: Vec::new(),
+            feedback: Vec::new(),
+            view: (0..NPEERS).map(|p| if p < ndial { 1 } else { 0 }).collect(),
+            owed: vec![false; NPEERS],
+            clogged: false,
+            books_off: false,
+            last_dump: None,
+            rid0: h.rid0(),
+            tmo_ms,
+        }
+    }
+
     fn peer_index(&self, p: &PeerId) -> u64 {
         self.peers.iter().position(|x| x == p).map(|i| i as u64).unwrap_or(99)
+    }
+
+    /// a request id as the trace prints it: relative to the allocator's start value
+    fn rel(&self, id: usize) -> u64 {
+        id.wrapping_sub(self.rid0) as u64
+    }
+    fn rid(&self, id: RequestId) -> u64 {
+        self.rel(id.verif_as_usize())
+    }
+    /// and back
+    fn abs(&self, rel: u64) -> RequestId {
+        RequestId::from((rel as usize).wrapping_add(self.rid0))
     }
 
     /// Polls the real `run` future until nothing is ready; collects what became observable. The
@@ -267,12 +435,19 @@ impl World {
 
     async fn poll_loop(&mut self, events: &mut Vec<Vec<u64>>) {
         let mut quiet = 0;
-        for _ in 0..100_000 {
+        for _ in 0..1_000_000 {
             let mut finished = false;
+            let before_progress = progress();
             match self.run.as_mut() {
                 Some(run) => {
+                    // this thread has one slot for the published bookkeeping: keep this world's copy
+                    // of what THIS poll published (a parked loop publishes nothing)
+                    rrv::reset_published();
                     if let Poll::Ready(()) = futures::poll!(run.as_mut()) {
                         finished = true;
+                    }
+                    if let Some(d) = rrv::published_dump() {
+                        self.last_dump = Some(d);
                     }
                 }
                 None => break,
@@ -285,7 +460,7 @@ impl World {
             // connections read their command channels after the loop has come to rest
             let before = events.len();
             self.collect_user(events);
-            if events.len() == before {
+            if events.len() == before && progress() == before_progress {
                 quiet += 1;
                 if quiet >= 3 {
                     break;
@@ -306,21 +481,21 @@ impl World {
             match ev {
                 RequestResponseEvent::ResponseReceived { request_id, response, fallback, .. } => {
                     let (len, tag) = describe(&response);
-                    events.push(vec![2, request_id.verif_as_usize() as u64, len, tag]);
+                    events.push(vec![2, self.rid(request_id), len, tag]);
                     if fallback.is_some() {
-                        events.push(vec![9, request_id.verif_as_usize() as u64, fallback_id(&fallback)]);
+                        events.push(vec![9, self.rid(request_id), fallback_id(&fallback)]);
                     }
                 }
                 RequestResponseEvent::RequestFailed { request_id, error, .. } => {
-                    events.push(vec![3, request_id.verif_as_usize() as u64, error_code(&error)]);
+                    events.push(vec![3, self.rid(request_id), error_code(&error)]);
                 }
                 RequestResponseEvent::RequestReceived { peer, request_id, request, fallback } => {
                     let (len, tag) = describe(&request);
-                    let irid = request_id.verif_as_usize();
-                    self.hpend.push(irid);
-                    events.push(vec![4, irid as u64, self.peer_index(&peer), len, tag]);
+                    let irid = self.rid(request_id);
+                    self.hpend.push(irid as usize);
+                    events.push(vec![4, irid, self.peer_index(&peer), len, tag]);
                     if fallback.is_some() {
-                        events.push(vec![10, irid as u64, fallback_id(&fallback)]);
+                        events.push(vec![10, irid, fallback_id(&fallback)]);
                     }
                 }
             }
@@ -381,10 +556,13 @@ impl World {
             }
         }
         for (i, ch) in self.chans.iter_mut().enumerate() {
-            while let Some(f) = ch.carrier.take_frame() {
+            while let Some((f, raw)) = ch.carrier.take_frame_raw() {
                 let (len, tag) = describe(&f);
                 if ch.out {
                     ch.seen = true;
+                }
+                if ch.wrote.is_none() {
+                    ch.wrote = Some(raw);
                 }
                 events.push(vec![5, i as u64, len, tag]);
             }
@@ -393,37 +571,81 @@ impl World {
 
     /// The bookkeeping the real loop published when it last came back to its `select!`.
     fn dump(&self, out: &mut Vec<u64>) {
-        let d = match (self.run.is_some(), rrv::published_dump()) {
+        let d = match (self.run.is_some(), self.last_dump.clone()) {
             (true, Some(d)) => d,
             _ => Default::default(),
         };
-        let mut peers: Vec<(u64, Vec<usize>, Vec<usize>)> =
-            d.peers.iter().map(|(p, a, i)| (self.peer_index(p), a.clone(), i.clone())).collect();
+        let rel = |x: &usize| self.rel(*x);
+        let mut peers: Vec<(u64, Vec<u64>, Vec<u64>)> = d
+            .peers
+            .iter()
+            .map(|(p, a, i)| {
+                let mut a: Vec<u64> = a.iter().map(rel).collect();
+                let mut i: Vec<u64> = i.iter().map(rel).collect();
+                a.sort();
+                i.sort();
+                (self.peer_index(p), a, i)
+            })
+            .collect();
         peers.sort();
         out.push(peers.len() as u64);
         for (p, a, i) in peers {
             out.push(p);
             out.push(a.len() as u64);
-            out.extend(a.iter().map(|x| *x as u64));
+            out.extend(a.iter().copied());
             out.push(i.len() as u64);
-            out.extend(i.iter().map(|x| *x as u64));
+            out.extend(i.iter().copied());
         }
-        let mut dials: Vec<(u64, Vec<usize>)> =
-            d.pending_dials.iter().map(|(p, r)| (self.peer_index(p), r.clone())).collect();
+        let mut dials: Vec<(u64, Vec<u64>)> =
+            d.pending_dials.iter().map(|(p, r)| (self.peer_index(p), r.iter().map(rel).collect())).collect();
         dials.sort();
         out.push(dials.len() as u64);
         for (p, r) in dials {
             out.push(p);
             out.push(r.len() as u64);
-            out.extend(r.iter().map(|x| *x as u64));
+            out.extend(r.iter().copied());
         }
         out.push(d.pending_outbound.len() as u64);
         for (sid, p, rid) in d.pending_outbound.iter() {
-            out.extend([*sid as u64, self.peer_index(p), *rid as u64]);
+            out.extend([*sid as u64, self.peer_index(p), rel(rid)]);
         }
-        out.push(d.cancels.len() as u64);
-        out.extend(d.cancels.iter().map(|x| *x as u64));
+        let mut cancels: Vec<u64> = d.cancels.iter().map(rel).collect();
+        cancels.sort();
+        out.push(cancels.len() as u64);
+        out.extend(cancels.iter().copied());
         out.extend([d.request_futures as u64, d.inbound_reading as u64, d.inbound_responding as u64]);
+    }
+
+    /// The connection stops reading commands: `open_substream` draws its substream id, upgrades a
+    /// downgraded handle (the harness keeps a sender of the command channel) and fails to send.
+    fn break_connection(&mut self, p: usize) {
+        self.proto.break_connection(self.peers[p]);
+    }
+
+    /// The record of a stimulus that leaves this world alone: nothing may become observable.
+    async fn idle(&mut self) -> StepRec {
+        if self.run.is_none() {
+            return StepRec { target: None, events: Vec::new(), dump: vec![0; 7] };
+        }
+        let mut events = Vec::new();
+        self.settle(&mut events).await;
+        events.sort();
+        let mut dump = Vec::new();
+        self.dump(&mut dump);
+        StepRec { target: None, events, dump }
+    }
+
+    /// Settles and packs up what a stimulus made observable.
+    async fn finish(&mut self, target: Option<u64>, mut events: Vec<Vec<u64>>) -> StepRec {
+        self.settle(&mut events).await;
+        if self.books_off {
+            self.books_off = false;
+            events.push(vec![99, 3]);
+        }
+        events.sort();
+        let mut dump = Vec::new();
+        self.dump(&mut dump);
+        StepRec { target, events, dump }
     }
 }
 
@@ -445,7 +667,7 @@ struct StepRec {
 /// How the event channel (protocol -> user) is sized: `None` = the default, `Some(n)` = capacity n.
 type Mode = Option<usize>;
 
-const TMO_MS: u64 = 5000;
+const DEFAULT_TMO_MS: u64 = 5000;
 
 /// Width (number of fields including the tag) of an op.
 fn op_width(tag: u64) -> usize {
@@ -462,141 +684,95 @@ fn op_width(tag: u64) -> usize {
     }
 }
 
-/// Returns what every stimulus made observable and, for the stimuli that make two things ready
-/// at the same instant, which one the implementation looked at first.
-async fn run_ops(c: &[u64], mode: Mode) -> Option<(Vec<StepRec>, Vec<u64>)> {
-    let (max_inb, ndial, max_size) = (*c.first()?, *c.get(1)?, *c.get(2)?);
-    let (selfp, ccap) = (*c.get(3)?, *c.get(4)?);
-    let nops = *c.get(5)? as usize;
-    if max_size > 1 << 20 || ccap > 4096 {
-        return None;
+/// The static checks of the fields of an op (the same as Glue.decode_case).
+fn op_fields_ok(op: &[u64]) -> Option<()> {
+    let a = |k: usize| op.get(k).copied();
+    match a(0)? {
+        0 | 23 => {
+            if a(1)? as usize >= NPEERS || a(3)? > 1 << 21 || a(6)? > 1 << 21 || a(5)? > 2 {
+                return None;
+            }
+        }
+        18 | 24 => {
+            if a(1)? as usize >= NPEERS || a(4)? > 1 << 21 || a(3)? > 64 {
+                return None;
+            }
+        }
+        19 => {
+            if a(4)? > 10_000_000 || a(2)? > 1 << 21 {
+                return None;
+            }
+        }
+        20 | 9 | 14 | 15 | 25 => {
+            if a(2)? > 1 << 21 {
+                return None;
+            }
+        }
+        21 => {
+            if a(2)? > 10_000_000 {
+                return None;
+            }
+        }
+        2 => {
+            if a(1)? as usize >= NPEERS || a(3)? > 4096 {
+                return None;
+            }
+        }
+        3 | 4 | 17 => {
+            if a(1)? as usize >= NPEERS {
+                return None;
+            }
+        }
+        5 => {
+            if a(3)? > 2 {
+                return None;
+            }
+        }
+        6 => {
+            if a(2)? > 14 {
+                return None;
+            }
+        }
+        12 => {
+            if a(1)? > 10_000_000 {
+                return None;
+            }
+        }
+        13 => {
+            if a(1)? as usize >= NPEERS || a(3)? > 2 {
+                return None;
+            }
+        }
+        27 => {
+            if a(1)? > 1 {
+                return None;
+            }
+        }
+        28 => {
+            if a(1)? as usize >= NPEERS || a(2)? > 6 {
+                return None;
+            }
+        }
+        _ => {}
     }
-    let channels = match mode {
-        Some(event_cap) => Some((event_cap, if ccap > 0 { ccap as usize } else { 4096 })),
-        None => if ccap > 0 { Some((4096, ccap as usize)) } else { None },
-    };
-    let mut choices: Vec<u64> = Vec::new();
-    let mut peers: Vec<PeerId> = (0..NPEERS).map(|_| PeerId::random()).collect();
-    let ndial = (ndial as usize).min(NPEERS);
-    let dialable: Vec<PeerId> = peers.iter().take(ndial).cloned().collect();
-    rrv::reset_published();
-    rrv::verif_dial_log::enable(true);
-    let (mut proto, handle) = VerifProtocol::new_full(
-        max_size as usize,
-        None,
-        if max_inb == 0 { None } else { Some((max_inb - 1) as usize) },
-        &dialable,
-        &FALLBACK_NAMES,
-        channels,
-    );
-    if selfp != 0 {
-        peers[NPEERS - 1] = proto.local_peer();
-    }
-    let run = Some(proto.take_run());
-    let mut w = World {
-        run,
-        peers,
-        proto,
-        handle: Some(handle),
-        connected: vec![false; NPEERS],
-        opens: Vec::new(),
-        chans: Vec::new(),
-        hpend: Vec::new(),
-        feedback: Vec::new(),
-        view: (0..NPEERS).map(|p| if p < ndial { 1 } else { 0 }).collect(),
-        owed: vec![false; NPEERS],
-        clogged: false,
-        books_off: false,
-    };
-    let mut out: Vec<StepRec> = Vec::new();
-    let mut i = 6;
-    for _ in 0..nops {
-        let tag = *c.get(i)?;
-        let base = i;
-        let a = move |k: usize| c.get(base + k).copied();
+    Some(())
+}
+
+impl World {
+    /// One stimulus (`op` = its tag and fields, already checked). For the stimuli that make two
+    /// things ready at the same instant, `choices` gets which one the implementation looked at first.
+    async fn apply(&mut self, op: &[u64], choices: &mut Vec<u64>) -> Option<StepRec> {
+        let tag = *op.first()?;
+        let a = |k: usize| op.get(k).copied();
         let mut events: Vec<Vec<u64>> = Vec::new();
         let mut target: Option<u64> = None;
         let mut race: Option<u64> = None;
         let mut race_rid = 0u64;
-        let width = op_width(tag);
-        if width == usize::MAX || i + width > c.len() {
-            return None;
-        }
-        // static checks of the fields (the same as Glue.decode_case)
-        match tag {
-            0 | 23 => {
-                if a(1)? as usize >= NPEERS || a(3)? > 1 << 21 || a(6)? > 1 << 21 || a(5)? > 2 {
-                    return None;
-                }
-            }
-            18 | 24 => {
-                if a(1)? as usize >= NPEERS || a(4)? > 1 << 21 || a(3)? > 64 {
-                    return None;
-                }
-            }
-            19 => {
-                if a(4)? > 10_000_000 || a(2)? > 1 << 21 {
-                    return None;
-                }
-            }
-            20 | 9 | 14 | 15 | 25 => {
-                if a(2)? > 1 << 21 {
-                    return None;
-                }
-            }
-            21 => {
-                if a(2)? > 10_000_000 {
-                    return None;
-                }
-            }
-            2 => {
-                if a(1)? as usize >= NPEERS || a(3)? > 4096 {
-                    return None;
-                }
-            }
-            3 | 4 | 17 => {
-                if a(1)? as usize >= NPEERS {
-                    return None;
-                }
-            }
-            5 => {
-                if a(3)? > 2 {
-                    return None;
-                }
-            }
-            6 => {
-                if a(2)? > 2 {
-                    return None;
-                }
-            }
-            12 => {
-                if a(1)? > 10_000_000 {
-                    return None;
-                }
-            }
-            13 => {
-                if a(1)? as usize >= NPEERS || a(3)? > 2 {
-                    return None;
-                }
-            }
-            27 => {
-                if a(1)? > 1 {
-                    return None;
-                }
-            }
-            28 => {
-                if a(1)? as usize >= NPEERS || a(2)? > 6 {
-                    return None;
-                }
-            }
-            _ => {}
-        }
-        i += width;
-        if w.run.is_none() {
+        if self.run.is_none() {
             // the event loop has ended: nothing is left to stimulate or to observe
-            out.push(StepRec { target: None, events: Vec::new(), dump: vec![0; 7] });
-            continue;
+            return Some(StepRec { target: None, events: Vec::new(), dump: vec![0; 7] });
         }
+        let w = self;
         let opt = |dial: u64| if dial != 0 { DialOptions::Dial } else { DialOptions::Reject };
         match tag {
             0 | 23 => {
@@ -637,11 +813,11 @@ async fn run_ops(c: &[u64], mode: Mode) -> Option<(Vec<StepRec>, Vec<u64>)> {
                         None => {
                             // (the dropped call has burned an id; the model will disagree)
                             events.push(vec![12, 1]);
-                            RequestId::from(usize::MAX >> 8)
+                            RequestId::from((usize::MAX >> 8).wrapping_add(w.rid0))
                         }
                     }
                 };
-                events.push(vec![1, rid.verif_as_usize() as u64]);
+                events.push(vec![1, w.rid(rid)]);
             }
             18 | 24 => {
                 // a burst of try_send_request: the command channel takes what it has room for
@@ -649,7 +825,7 @@ async fn run_ops(c: &[u64], mode: Mode) -> Option<(Vec<StepRec>, Vec<u64>)> {
                 let peer = w.peers[p];
                 for _ in 0..n {
                     if let Ok(rid) = w.handle.as_mut()?.try_send_request(peer, payload(len, t), opt(dial)) {
-                        events.push(vec![1, rid.verif_as_usize() as u64]);
+                        events.push(vec![1, w.rid(rid)]);
                     }
                 }
                 if tag == 24 {
@@ -664,13 +840,17 @@ async fn run_ops(c: &[u64], mode: Mode) -> Option<(Vec<StepRec>, Vec<u64>)> {
                         let dropit = a(6)? != 0;
                         while res.is_pending() && !dropit && rounds < 64 {
                             if let Some(run) = w.run.as_mut() {
+                                rrv::reset_published();
                                 let _ = futures::poll!(run.as_mut());
+                                if let Some(d) = rrv::published_dump() {
+                                    w.last_dump = Some(d);
+                                }
                             }
                             res = futures::poll!(fut.as_mut());
                             rounds += 1;
                         }
                         match res {
-                            Poll::Ready(Ok(rid)) => events.push(vec![1, rid.verif_as_usize() as u64]),
+                            Poll::Ready(Ok(rid)) => events.push(vec![1, w.rid(rid)]),
                             Poll::Ready(Err(_)) => events.push(vec![99, 4]),
                             // the user gives up waiting: the future is dropped, its id is gone
                             Poll::Pending if dropit => {}
@@ -705,13 +885,15 @@ async fn run_ops(c: &[u64], mode: Mode) -> Option<(Vec<StepRec>, Vec<u64>)> {
                         ch.carrier.feed(&frame(len, t));
                     }
                 }
-                w.handle.as_mut()?.cancel_request(RequestId::from(rid as usize)).await;
+                let id = w.abs(rid);
+                w.handle.as_mut()?.cancel_request(id).await;
                 race = Some(20);
             }
             21 => {
                 // the user cancels and the clock passes the deadline before the loop runs again
                 let (rid, dt) = (a(1)?, a(2)?);
-                w.handle.as_mut()?.cancel_request(RequestId::from(rid as usize)).await;
+                let id = w.abs(rid);
+                w.handle.as_mut()?.cancel_request(id).await;
                 tokio::time::advance(Duration::from_millis(dt)).await;
                 race = Some(21);
                 race_rid = rid;
@@ -720,7 +902,8 @@ async fn run_ops(c: &[u64], mode: Mode) -> Option<(Vec<StepRec>, Vec<u64>)> {
                 w.proto.close_manager_commands();
             }
             1 => {
-                w.handle.as_mut()?.cancel_request(RequestId::from(a(1)? as usize)).await;
+                let id = w.abs(a(1)?);
+                w.handle.as_mut()?.cancel_request(id).await;
             }
             2 => {
                 let (p, broken, cap) = (a(1)? as usize, a(2)?, a(3)?);
@@ -736,7 +919,7 @@ async fn run_ops(c: &[u64], mode: Mode) -> Option<(Vec<StepRec>, Vec<u64>)> {
                         w.proto.inject_connection_established_with_capacity(w.peers[p], cap as usize);
                     }
                     if broken != 0 {
-                        w.proto.break_connection(w.peers[p]);
+                        w.break_connection(p);
                     }
                 }
             }
@@ -759,38 +942,41 @@ async fn run_ops(c: &[u64], mode: Mode) -> Option<(Vec<StepRec>, Vec<u64>)> {
                     target = Some(sid as u64);
                     w.opens.retain(|(s, _)| *s != sid);
                     let carrier = Carrier::new(gate);
-                    w.chans.push(Chan { carrier: carrier.clone(), out: true, seen: false });
+                    w.chans.push(Chan { carrier: carrier.clone(), out: true, seen: false, linked: false, wrote: None });
                     w.proto.inject_substream_opened_with_fallback(w.peers[p], Some(sid), Box::new(carrier), fallback_name(neg));
                 }
             }
             6 => {
-                let (k, unsupported) = (a(1)?, a(2)?);
-                if let Some((sid, _)) = nth_mod(k, &w.opens) {
+                let (k, kind) = (a(1)?, a(2)?);
+                if let Some((sid, p)) = nth_mod(k, &w.opens) {
                     target = Some(sid as u64);
                     w.opens.retain(|(s, _)| *s != sid);
-                    w.proto.inject_substream_open_failure_kind(sid, unsupported as usize);
+                    w.proto.inject_substream_open_failure_any(sid, kind as usize, w.peers[p]);
                 }
             }
             7 | 8 | 10 | 11 => {
                 if !w.chans.is_empty() {
                     let ci = (a(1)? % w.chans.len() as u64) as usize;
-                    target = Some(ci as u64);
                     let ch = &mut w.chans[ci];
-                    match tag {
-                        7 => {
-                            if ch.carrier.gate() == 0 {
-                                ch.carrier.set_gate(1);
+                    // the read side of a linked carrier is the courier's business
+                    if !(ch.linked && tag >= 10) {
+                        target = Some(ci as u64);
+                        match tag {
+                            7 => {
+                                if ch.carrier.gate() == 0 {
+                                    ch.carrier.set_gate(1);
+                                }
                             }
-                        }
-                        8 => {
-                            if ch.carrier.gate() != 2 {
-                                ch.carrier.set_gate(2);
+                            8 => {
+                                if ch.carrier.gate() != 2 {
+                                    ch.carrier.set_gate(2);
+                                }
                             }
-                        }
-                        _ => {
-                            // the remote side answers (here: gives up) only after it saw the request
-                            if !ch.out || ch.seen {
-                                ch.carrier.close_read(tag == 11);
+                            _ => {
+                                // the remote side answers (here: gives up) only after it saw the request
+                                if !ch.out || ch.seen {
+                                    ch.carrier.close_read(tag == 11);
+                                }
                             }
                         }
                     }
@@ -800,14 +986,16 @@ async fn run_ops(c: &[u64], mode: Mode) -> Option<(Vec<StepRec>, Vec<u64>)> {
                 let (k, len, t) = (a(1)?, a(2)?, a(3)?);
                 if !w.chans.is_empty() {
                     let ci = (k % w.chans.len() as u64) as usize;
-                    target = Some(ci as u64);
                     let ch = &mut w.chans[ci];
-                    if tag == 9 && ch.out && ch.seen {
-                        ch.carrier.feed(&frame(len, t));
-                    }
-                    if tag == 14 && !ch.out {
-                        ch.seen = true;
-                        ch.carrier.feed(&frame(len, t));
+                    if !ch.linked {
+                        target = Some(ci as u64);
+                        if tag == 9 && ch.out && ch.seen {
+                            ch.carrier.feed(&frame(len, t));
+                        }
+                        if tag == 14 && !ch.out {
+                            ch.seen = true;
+                            ch.carrier.feed(&frame(len, t));
+                        }
                     }
                 }
             }
@@ -819,7 +1007,7 @@ async fn run_ops(c: &[u64], mode: Mode) -> Option<(Vec<StepRec>, Vec<u64>)> {
                 if w.connected[p] {
                     target = Some(w.chans.len() as u64);
                     let carrier = Carrier::new(gate);
-                    w.chans.push(Chan { carrier: carrier.clone(), out: false, seen: false });
+                    w.chans.push(Chan { carrier: carrier.clone(), out: false, seen: false, linked: false, wrote: None });
                     w.proto.inject_substream_opened_with_fallback(w.peers[p], None, Box::new(carrier), fallback_name(neg));
                 }
             }
@@ -833,14 +1021,15 @@ async fn run_ops(c: &[u64], mode: Mode) -> Option<(Vec<StepRec>, Vec<u64>)> {
                         target = Some(irid as u64);
                     }
                     w.hpend.retain(|x| *x != irid);
+                    let id = w.abs(irid as u64);
                     if fb != 0 {
                         let (tx, rx) = futures::channel::oneshot::channel();
                         if known {
                             w.feedback.push((irid, rx));
                         }
-                        w.handle.as_mut()?.send_response_with_feedback(RequestId::from(irid), payload(len, t), tx);
+                        w.handle.as_mut()?.send_response_with_feedback(id, payload(len, t), tx);
                     } else {
-                        w.handle.as_mut()?.send_response(RequestId::from(irid), payload(len, t));
+                        w.handle.as_mut()?.send_response(id, payload(len, t));
                     }
                 }
             }
@@ -851,11 +1040,12 @@ async fn run_ops(c: &[u64], mode: Mode) -> Option<(Vec<StepRec>, Vec<u64>)> {
                         target = Some(irid as u64);
                     }
                     w.hpend.retain(|x| *x != irid);
-                    w.handle.as_mut()?.reject_request(RequestId::from(irid));
+                    let id = w.abs(irid as u64);
+                    w.handle.as_mut()?.reject_request(id);
                 }
             }
             17 => {
-                w.proto.break_connection(w.peers[a(1)? as usize]);
+                w.break_connection(a(1)? as usize);
             }
             27 => {
                 // the event loop ends: the user drops the handle / the service's event channel closes
@@ -893,7 +1083,7 @@ async fn run_ops(c: &[u64], mode: Mode) -> Option<(Vec<StepRec>, Vec<u64>)> {
                     }
                 }
                 w.opens.clear();
-                tokio::time::advance(Duration::from_millis(2 * TMO_MS + 1)).await;
+                tokio::time::advance(Duration::from_millis(2 * w.tmo_ms + 1)).await;
             }
             31 => {
                 // the same, but the connections stay: every unanswered open_substream gets a
@@ -907,34 +1097,56 @@ async fn run_ops(c: &[u64], mode: Mode) -> Option<(Vec<StepRec>, Vec<u64>)> {
                 for (sid, _) in std::mem::take(&mut w.opens) {
                     w.proto.inject_substream_open_failure(sid, false);
                 }
-                tokio::time::advance(Duration::from_millis(2 * TMO_MS + 1)).await;
+                tokio::time::advance(Duration::from_millis(2 * w.tmo_ms + 1)).await;
             }
             _ => return None,
         }
-        w.settle(&mut events).await;
+        let mut rec = w.finish(target, events).await;
         if tag == 27 && w.run.is_some() {
             // the loop did not end
-            events.push(vec![99, 6]);
+            rec.events.push(vec![99, 6]);
+            rec.events.sort();
         }
-        if w.books_off {
-            w.books_off = false;
-            events.push(vec![99, 3]);
-        }
-        events.sort();
         match race {
             // which of the two ready things did the implementation look at first?
             // 19, 20: the answer was consumed => the response; 21: a Timeout for that id => the clock
             // (an oversize answer shows up as a read failure, code 4, instead of a response)
-            Some(19) | Some(20) => choices.push(if events.iter().any(|e| e[0] == 2 || (e[0] == 3 && e[2] == 4)) { 0 } else { 1 }),
-            Some(_) => choices.push(if events.iter().any(|e| e[0] == 3 && e[1] == race_rid && e[2] == 6) { 1 } else { 0 }),
+            Some(19) | Some(20) => choices.push(if rec.events.iter().any(|e| e[0] == 2 || (e[0] == 3 && e[2] == 4)) { 0 } else { 1 }),
+            Some(_) => choices.push(if rec.events.iter().any(|e| e[0] == 3 && e[1] == race_rid && e[2] == 6) { 1 } else { 0 }),
             None => {}
         }
-        let mut dump = Vec::new();
-        w.dump(&mut dump);
-        out.push(StepRec { target, events, dump });
+        Some(rec)
+    }
+}
+
+/// Returns what every stimulus made observable and, for the stimuli that make two things ready
+/// at the same instant, which one the implementation looked at first.
+async fn run_ops(c: &[u64], mode: Mode) -> Option<(Vec<StepRec>, Vec<u64>)> {
+    let h = Header { max_inb: *c.first()?, ndial: *c.get(1)?, max_size: *c.get(2)?, flags: *c.get(3)?, ccap: *c.get(4)? };
+    let nops = *c.get(5)? as usize;
+    if !h.valid() {
+        return None;
+    }
+    // the whole case is parsed before anything runs (as Glue.decode_case does)
+    let mut ops: Vec<&[u64]> = Vec::new();
+    let mut i = 6;
+    for _ in 0..nops {
+        let width = op_width(*c.get(i)?);
+        if width == usize::MAX || i + width > c.len() {
+            return None;
+        }
+        op_fields_ok(&c[i..i + width])?;
+        ops.push(&c[i..i + width]);
+        i += width;
     }
     if i != c.len() {
         return None;
+    }
+    let mut choices: Vec<u64> = Vec::new();
+    let mut w = World::new(&h, mode);
+    let mut out: Vec<StepRec> = Vec::new();
+    for op in ops {
+        out.push(w.apply(op, &mut choices).await?);
     }
     rrv::verif_dial_log::enable(false);
     Some((out, choices))
@@ -987,6 +1199,19 @@ fn with_choices(c: &[u64], choices: &[u64]) -> Vec<u64> {
     c
 }
 
+fn push_rec(out: &mut Vec<u64>, r: &StepRec, extra: Option<Vec<u64>>) {
+    let mut events = r.events.clone();
+    if let Some(e) = extra {
+        events.push(e);
+    }
+    out.push(r.target.map(|t| t + 1).unwrap_or(0));
+    out.push(events.len() as u64);
+    for e in events.iter() {
+        out.extend(e.iter().copied());
+    }
+    out.extend(r.dump.iter().copied());
+}
+
 /// Every case is run twice on fresh protocol objects, both times as the REAL
 /// `RequestResponseProtocol::run` future polled by hand (so a change inside `run` is seen):
 ///  A. with the default channel sizes — its events and the bookkeeping published by the loop
@@ -997,6 +1222,9 @@ fn with_choices(c: &[u64], choices: &[u64]) -> Vec<u64> {
 /// for that stimulus (the model never prints one, so the case shows up as a disagreement) and C's
 /// events are printed instead of A's, so that the oracle judges them too.
 fn run_case(c: &[u64]) -> (Vec<u64>, Vec<u64>) {
+    if c.first() == Some(&TWO_NODE) {
+        return run_case2(c);
+    }
     let c0 = c.to_vec();
     let r = catch_unwind(AssertUnwindSafe(move || {
         let (a, choices) = run_mode(&c0, None)?;
@@ -1009,21 +1237,208 @@ fn run_case(c: &[u64]) -> (Vec<u64>, Vec<u64>) {
         for (a, k) in a.iter().zip(k.iter()) {
             let same = k.target == a.target && k.events == a.events && k.dump == a.dump;
             let shown = if !same && k_ok { k } else { a };
-            let mut events = shown.events.clone();
-            if !same {
-                events.push(vec![99, 2]);
-            }
-            out.push(shown.target.map(|t| t + 1).unwrap_or(0));
-            out.push(events.len() as u64);
-            for e in events.iter() {
-                out.extend(e.iter().copied());
-            }
-            out.extend(shown.dump.iter().copied());
+            push_rec(&mut out, shown, if same { None } else { Some(vec![99, 2]) });
         }
         Some((c1, out))
     }));
     match r {
         Ok(Some(x)) => x,
+        Ok(None) => (c.to_vec(), vec![0]),
+        Err(_) => (c.to_vec(), vec![PANIC_MARK]),
+    }
+}
+
+// ------------------------------------------------------------------ two nodes
+
+enum Move<'a> {
+    Loc(usize, &'a [u64]),
+    Open { a: usize, k: u64, gq: u8, gr: u8, neg: u64 },
+    Req(u64, u64, Vec<RdEv>),
+    Resp(u64, u64, Vec<RdEv>),
+}
+
+struct Link {
+    a: usize,
+    cq: usize,
+    cr: usize,
+    reqd: bool,
+    respd: bool,
+}
+
+fn parse_script(c: &[u64], i: &mut usize) -> Option<Vec<RdEv>> {
+    let n = *c.get(*i)? as usize;
+    *i += 1;
+    if n > 64 {
+        return None;
+    }
+    let mut out = Vec::new();
+    for _ in 0..n {
+        let t = *c.get(*i)?;
+        *i += 1;
+        out.push(match t {
+            0 => RdEv::Pending,
+            1 => {
+                let k = *c.get(*i)?;
+                *i += 1;
+                RdEv::Chunk(k)
+            }
+            2 => RdEv::Eof,
+            3 => RdEv::Err,
+            _ => return None,
+        });
+    }
+    Some(out)
+}
+
+fn parse_moves(c: &[u64], mut i: usize, n: usize) -> Option<Vec<Move<'_>>> {
+    let mut out = Vec::new();
+    for _ in 0..n {
+        let tag = *c.get(i)?;
+        i += 1;
+        match tag {
+            40 => {
+                let x = *c.get(i)? as usize;
+                i += 1;
+                if x > 1 {
+                    return None;
+                }
+                let t = *c.get(i)?;
+                let width = op_width(t);
+                if matches!(t, 19 | 20 | 21) || width == usize::MAX || i + width > c.len() {
+                    return None;
+                }
+                op_fields_ok(&c[i..i + width])?;
+                out.push(Move::Loc(x, &c[i..i + width]));
+                i += width;
+            }
+            41 => {
+                let (a, k, gq, gr, neg) = (*c.get(i)?, *c.get(i + 1)?, *c.get(i + 2)?, *c.get(i + 3)?, *c.get(i + 4)?);
+                i += 5;
+                if a > 1 || neg > 2 {
+                    return None;
+                }
+                out.push(Move::Open { a: a as usize, k, gq: gq.min(2) as u8, gr: gr.min(2) as u8, neg });
+            }
+            42 | 43 => {
+                let (l, cut) = (*c.get(i)?, *c.get(i + 1)?);
+                i += 2;
+                if cut > 4_194_304 {
+                    return None;
+                }
+                let script = parse_script(c, &mut i)?;
+                out.push(if tag == 42 { Move::Req(l, cut, script) } else { Move::Resp(l, cut, script) });
+            }
+            _ => return None,
+        }
+    }
+    if i != c.len() {
+        return None;
+    }
+    Some(out)
+}
+
+/// The record of a world the event loop of which has ended.
+fn dead_rec() -> StepRec {
+    StepRec { target: None, events: Vec::new(), dump: vec![0; 7] }
+}
+
+async fn run_two(c: &[u64]) -> Option<Vec<u64>> {
+    let g = |k: usize| c.get(k).copied();
+    let (max_size, flags) = (g(7)?, g(8)?);
+    let ha = Header { max_inb: g(1)?, ndial: g(2)?, max_size, flags, ccap: g(3)? };
+    let hb = Header { max_inb: g(4)?, ndial: g(5)?, max_size, flags, ccap: g(6)? };
+    if !ha.valid() || !hb.valid() || flags & 1 != 0 {
+        return None;
+    }
+    let moves = parse_moves(c, 10, g(9)? as usize)?;
+    let mut ws = [World::new(&ha, None), World::new(&hb, None)];
+    let mut links: Vec<Link> = Vec::new();
+    let mut out = vec![1u64];
+    let mut no_choices = Vec::new();
+    for m in moves {
+        let mut recs: [Option<StepRec>; 2] = [None, None];
+        match m {
+            Move::Loc(x, op) => {
+                recs[x] = Some(ws[x].apply(op, &mut no_choices).await?);
+            }
+            Move::Open { a, k, gq, gr, neg } => {
+                let b = 1 - a;
+                if ws[a].run.is_some() {
+                    if let Some((sid, p)) = nth_mod(k, &ws[a].opens) {
+                        let cq = ws[a].chans.len();
+                        let peer = ws[a].peers[p];
+                        ws[a].opens.retain(|(s, _)| *s != sid);
+                        let carrier = Carrier::new(gq);
+                        let linkit = p == 0 && ws[b].connected[0] && ws[b].run.is_some();
+                        ws[a].chans.push(Chan { carrier: carrier.clone(), out: true, seen: false, linked: linkit, wrote: None });
+                        ws[a].proto.inject_substream_opened_with_fallback(peer, Some(sid), Box::new(carrier), fallback_name(neg));
+                        recs[a] = Some(ws[a].finish(Some(sid as u64), Vec::new()).await);
+                        if linkit {
+                            let cr = ws[b].chans.len();
+                            let peer0 = ws[b].peers[0];
+                            let carrier = Carrier::new(gr);
+                            ws[b].chans.push(Chan { carrier: carrier.clone(), out: false, seen: false, linked: true, wrote: None });
+                            ws[b].proto.inject_substream_opened_with_fallback(peer0, None, Box::new(carrier), fallback_name(neg));
+                            recs[b] = Some(ws[b].finish(Some(cr as u64), Vec::new()).await);
+                            links.push(Link { a, cq, cr, reqd: false, respd: false });
+                        }
+                    }
+                }
+            }
+            Move::Req(i, cut, script) => {
+                if !links.is_empty() {
+                    let j = (i % links.len() as u64) as usize;
+                    if !links[j].reqd {
+                        links[j].reqd = true;
+                        let (a, cq, cr) = (links[j].a, links[j].cq, links[j].cr);
+                        let b = 1 - a;
+                        let full = ws[a].chans[cq].wrote.clone().unwrap_or_default();
+                        let wire = &full[..(cut as usize).min(full.len())];
+                        if ws[b].run.is_some() {
+                            ws[b].chans[cr].carrier.deliver(wire, script);
+                            ws[b].chans[cr].seen = true;
+                            recs[b] = Some(ws[b].finish(Some(cr as u64), Vec::new()).await);
+                        }
+                    }
+                }
+            }
+            Move::Resp(i, cut, script) => {
+                if !links.is_empty() {
+                    let j = (i % links.len() as u64) as usize;
+                    let (a, cq, cr) = (links[j].a, links[j].cq, links[j].cr);
+                    let b = 1 - a;
+                    if !links[j].respd && ws[a].chans[cq].out && ws[a].chans[cq].seen {
+                        links[j].respd = true;
+                        let full = ws[b].chans[cr].wrote.clone().unwrap_or_default();
+                        let wire = &full[..(cut as usize).min(full.len())];
+                        if ws[a].run.is_some() {
+                            ws[a].chans[cq].carrier.deliver(wire, script);
+                            recs[a] = Some(ws[a].finish(Some(cq as u64), Vec::new()).await);
+                        }
+                    }
+                }
+            }
+        }
+        for x in 0..2 {
+            let r = match recs[x].take() {
+                Some(r) => r,
+                None => if ws[x].run.is_some() { ws[x].idle().await } else { dead_rec() },
+            };
+            push_rec(&mut out, &r, None);
+        }
+    }
+    rrv::verif_dial_log::enable(false);
+    Some(out)
+}
+
+fn run_case2(c: &[u64]) -> (Vec<u64>, Vec<u64>) {
+    let c0 = c.to_vec();
+    let r = catch_unwind(AssertUnwindSafe(move || {
+        let rt = tokio::runtime::Builder::new_current_thread().enable_all().start_paused(true).build().unwrap();
+        rt.block_on(tokio::task::unconstrained(run_two(&c0)))
+    }));
+    match r {
+        Ok(Some(t)) => (c.to_vec(), t),
         Ok(None) => (c.to_vec(), vec![0]),
         Err(_) => (c.to_vec(), vec![PANIC_MARK]),
     }
@@ -1167,7 +1582,7 @@ fn gen_guided(rng: &mut Rng, thorough: bool) -> Vec<u64> {
             vec![12, rng.pick(&[1700u64, 2600, 5100, 300])]
         } else if roll < 76 && opens > 0 {
             opens -= 1;
-            vec![6, rng.below(opens + 1), rng.below(3)]
+            vec![6, rng.below(opens + 1), if rng.chance(50) { rng.below(3) } else { rng.below(15) }]
         } else if roll < 79 {
             if connected[p] {
                 connected[p] = false;
@@ -1219,11 +1634,222 @@ fn gen_guided(rng: &mut Rng, thorough: bool) -> Vec<u64> {
         ops.push(op);
     }
     epilogue(rng, &mut ops);
-    assemble([max_inb, ndial, max_size, selfp, ccap], ops)
+    assemble([max_inb, ndial, max_size, selfp + extra_flags(rng), ccap], ops)
+}
+
+/// The bits of the header's flags field beyond selfp: the configured timeout, the start value of the
+/// id allocator, the keep-alive timeout of the transport service (see Glue1.v).
+fn extra_flags(rng: &mut Rng) -> u64 {
+    let tmo_sel = if rng.chance(70) { 0 } else { rng.range(1, 3) };
+    let rid_sel = if rng.chance(65) { 0 } else { rng.range(1, 3) };
+    let ka = if rng.chance(25) { 1 } else { 0 };
+    2 * tmo_sel + 8 * rid_sel + 32 * ka
+}
+
+/// Silent remotes and a stalling user against the bound on inbound requests: inbound substreams
+/// that never send (or whose request is never answered), long stretches of time, connections that
+/// close under them, more inbound substreams from other peers, the occasional request / answer /
+/// end of stream that frees a slot.
+fn gen_flood(rng: &mut Rng, thorough: bool) -> Vec<u64> {
+    let max_inb = rng.pick(&[2u64, 2, 3, 4, 0]);
+    let max_size = rng.pick(&[16u64, 300]);
+    let npeers = rng.range(2, 4);
+    let nops = if thorough { rng.range(15, 80) } else { rng.range(8, 40) };
+    let mut ops: Vec<Vec<u64>> = Vec::new();
+    for p in 0..npeers {
+        ops.push(vec![2, p, 0, 0]);
+    }
+    let mut nchans = 0u64;
+    let mut waiting = 0u64;
+    for _ in 0..nops {
+        let p = rng.below(npeers);
+        let roll = rng.below(100);
+        let op = if roll < 40 {
+            nchans += 1;
+            vec![13, p, rng.pick(&[1u64, 1, 1, 0]), rng.pick(&[0u64, 0, 1])]
+        } else if roll < 52 {
+            vec![12, rng.pick(&[5100u64, 300, 1_000_000, 10_000_000])]
+        } else if roll < 64 && nchans > 0 {
+            waiting += 1;
+            vec![14, rng.below(nchans), rng.pick(&[0u64, 1, 7, max_size]), rng.below(256)]
+        } else if roll < 72 && nchans > 0 {
+            vec![rng.pick(&[10u64, 11]), rng.below(nchans)]
+        } else if roll < 80 && waiting > 0 {
+            waiting -= 1;
+            if rng.chance(70) { vec![15, rng.below(waiting + 1), rng.pick(&[0u64, 1, 7]), rng.below(256), rng.below(2)] } else { vec![16, rng.below(waiting + 1)] }
+        } else if roll < 86 {
+            vec![3, p]
+        } else if roll < 92 {
+            vec![2, p, 0, 0]
+        } else if roll < 96 && nchans > 0 {
+            vec![rng.pick(&[7u64, 8]), rng.below(nchans)]
+        } else {
+            vec![0, p, rng.below(2), rng.pick(&[0u64, 1, 7]), rng.below(256), 0, 0, 0]
+        };
+        ops.push(op);
+    }
+    epilogue(rng, &mut ops);
+    assemble([max_inb, 4, max_size, extra_flags(rng), 0], ops)
+}
+
+/// A fragmentation script for the reads of a delivery.
+fn gen_script(rng: &mut Rng, out: &mut Vec<u64>) {
+    let n = if rng.chance(40) { 0 } else { rng.range(1, 7) };
+    out.push(n);
+    for _ in 0..n {
+        match rng.below(20) {
+            0..=9 => out.extend([1, rng.pick(&[1u64, 1, 2, 3, 5, 64, 100_000])]),
+            10..=18 => out.push(0),
+            _ => out.push(if rng.chance(50) { 2 } else if rng.chance(50) { 3 } else { 0 }),
+        }
+    }
+}
+
+/// Two real nodes. Conversations move through their stages (request sent, substream opened and
+/// linked, request bytes delivered, answered by the user, response bytes delivered), in both
+/// directions and interleaved, with faults thrown in: bytes cut at any offset, fragmented and
+/// stalling reads, blocked and failing writes, cancels, timeouts, closed connections, requests to
+/// other peers, local stimuli aimed at linked carriers (ignored), an event loop that ends.
+fn gen_two(rng: &mut Rng, thorough: bool) -> Vec<u64> {
+    let max_size = rng.pick(&[16u64, 16, 300, 1024, 1024, 70_000]);
+    let lens = [0u64, 1, 2, 7, max_size - 1, max_size];
+    let nmoves = if thorough { rng.range(12, 90) } else { rng.range(8, 45) };
+    let mut mv: Vec<Vec<u64>> = Vec::new();
+    // stage of every conversation: (requester, stage); 0 sent, 1 linked, 2 request delivered, 3 answered, 4 done
+    let mut conv: Vec<(u64, u64, u64)> = Vec::new(); // (requester, stage, link index)
+    let mut nlinks = 0u64;
+    let batch = rng.chance(35);
+    let mut ids = [0u64; 2];
+    let mut nchans = [0u64; 2];
+    for x in 0..2u64 {
+        if rng.chance(92) {
+            mv.push(vec![40, x, 2, 0, 0, 0]);
+        }
+        if rng.chance(30) {
+            mv.push(vec![40, x, 2, 1, 0, 0]);
+        }
+    }
+    let paylen = |rng: &mut Rng| -> u64 {
+        if rng.chance(5) { max_size + 1 } else if max_size > 2000 && rng.chance(70) { rng.pick(&[0u64, 1, 2, 7, 200]) } else { rng.pick(&lens) }
+    };
+    for _ in 0..nmoves {
+        let x = rng.below(2);
+        let roll = rng.below(100);
+        let m: Vec<u64> = if roll < 22 {
+            // a new request, mostly to the other node
+            let p = if rng.chance(85) { 0 } else { 1 };
+            ids[x as usize] += 1;
+            if p == 0 {
+                conv.push((x, 0, 0));
+            }
+            let (fname, flen, ftag) = if rng.chance(25) { (rng.range(1, 2), rng.pick(&lens).min(2000), rng.below(256)) } else { (0, 0, 0) };
+            vec![40, x, if rng.chance(25) { 23 } else { 0 }, p, rng.below(2), paylen(rng), rng.below(256), fname, flen, ftag]
+        } else if roll < 86 && !conv.is_empty() {
+            // move a conversation on (mostly the oldest one: the indices below count from the oldest)
+            // (in batch mode the conversation that lags behind: several requests wait for the user at once)
+            let i = if batch {
+                (0..conv.len()).min_by_key(|i| conv[*i].1).unwrap_or(0)
+            } else if rng.chance(70) {
+                0
+            } else {
+                rng.below(conv.len() as u64) as usize
+            };
+            let (a, stage, link) = conv[i];
+            match stage {
+                0 => {
+                    conv[i] = (a, 1, nlinks);
+                    nlinks += 1;
+                    nchans[a as usize] += 1;
+                    nchans[1 - a as usize] += 1;
+                    ids[1 - a as usize] += 1;
+                    vec![41, a, if rng.chance(80) { 0 } else { rng.below(4) }, rng.pick(&[1u64, 1, 1, 1, 1, 1, 0, 2]), rng.pick(&[1u64, 1, 1, 1, 1, 1, 0, 2]), rng.pick(&[0u64, 0, 0, 1, 2])]
+                }
+                1 => {
+                    conv[i] = (a, 2, link);
+                    let mut m = vec![42, link, if rng.chance(80) { 4_000_000 } else { rng.below(max_size.min(40) + 4) }];
+                    gen_script(rng, &mut m);
+                    m
+                }
+                2 => {
+                    conv[i] = (a, 3, link);
+                    if rng.chance(88) {
+                        let l = if max_size > 2000 && rng.chance(40) { rng.pick(&[max_size - 1, max_size]) } else { paylen(rng) };
+                        vec![40, 1 - a, 15, if rng.chance(75) { 0 } else { rng.below(3) }, l, rng.below(256), rng.below(2)]
+                    } else {
+                        vec![40, 1 - a, 16, rng.below(3)]
+                    }
+                }
+                3 => {
+                    conv[i] = (a, 4, link);
+                    let mut m = vec![43, link, if rng.chance(80) { 4_000_000 } else { rng.below(max_size.min(40) + 4) }];
+                    gen_script(rng, &mut m);
+                    m
+                }
+                _ => {
+                    conv.remove(i);
+                    vec![40, x, 12, 300]
+                }
+            }
+        } else {
+            // disturbances
+            let nl = nlinks.max(1);
+            let nc = nchans[x as usize].max(1);
+            match rng.below(22) {
+                0 | 1 => vec![40, x, 1, rng.below(ids[x as usize] + 1)],
+                2 | 3 => vec![40, x, 12, rng.pick(&[300u64, 1700, 2600, 5100, 7800])],
+                4 => vec![40, x, 3, 0],
+                5 => vec![40, x, 2, 0, 0, 0],
+                6 | 7 => vec![40, x, 7, rng.below(nc)],
+                8 => vec![40, x, 8, rng.below(nc)],
+                9 => vec![40, x, 9, rng.below(nc), rng.pick(&lens), rng.below(256)],
+                10 => vec![40, x, 14, rng.below(nc), rng.pick(&lens), rng.below(256)],
+                11 => vec![40, x, rng.pick(&[10u64, 11]), rng.below(nc)],
+                12 => {
+                    let mut m = vec![rng.pick(&[42u64, 43]), rng.below(nl), rng.below(60)];
+                    gen_script(rng, &mut m);
+                    m
+                }
+                13 => {
+                    nchans[x as usize] += 1;
+                    ids[x as usize] += 1;
+                    vec![40, x, 13, rng.below(2), 1, 0]
+                }
+                14 => vec![40, x, 5, 0, rng.pick(&[1u64, 0, 2]), 0],
+                15 => vec![40, x, 6, 0, rng.below(15)],
+                16 => vec![40, x, 25, rng.below(ids[x as usize] + 2), rng.pick(&lens), rng.below(256), rng.below(2)],
+                17 => vec![41, x, rng.below(3), 1, 1, rng.below(3)],
+                18 => if rng.chance(25) { vec![40, x, 27, rng.below(2)] } else { vec![40, x, 12, 5100] },
+                19 => vec![40, x, 17, 0],
+                20 => vec![40, x, 4, 0],
+                _ => vec![40, x, 31],
+            }
+        };
+        mv.push(m);
+    }
+    if rng.chance(80) {
+        mv.push(vec![40, 0, 30]);
+        mv.push(vec![40, 1, 30]);
+    }
+    let mut c = vec![TWO_NODE];
+    c.extend([rng.pick(&[0u64, 0, 0, 2, 3]), rng.pick(&[2u64, 4]), 0]);
+    c.extend([rng.pick(&[0u64, 0, 0, 2, 3]), rng.pick(&[2u64, 4]), 0]);
+    c.extend([max_size, extra_flags(rng)]);
+    c.push(mv.len() as u64);
+    for m in mv {
+        c.extend(m);
+    }
+    c
 }
 
 fn gen_case(rng: &mut Rng, thorough: bool) -> Vec<u64> {
-    if rng.chance(45) {
+    let kind = rng.below(100);
+    if kind < 14 {
+        return gen_two(rng, thorough);
+    }
+    if kind < 20 {
+        return gen_flood(rng, thorough);
+    }
+    if kind < 58 {
         return gen_guided(rng, thorough);
     }
     let max_inb = rng.pick(&[0u64, 0, 1, 2, 3, 4]);
@@ -1275,7 +1901,7 @@ fn gen_case(rng: &mut Rng, thorough: bool) -> Vec<u64> {
             (_, 35..=39) => vec![3, p],
             (_, 40..=43) => vec![4, p],
             (_, 44..=55) => vec![5, k, gate, rng.pick(&[0u64, 0, 0, 1, 2])],
-            (_, 56..=58) => vec![6, k, rng.below(3)],
+            (_, 56..=58) => vec![6, k, if rng.chance(50) { rng.below(3) } else { rng.below(15) }],
             (_, 59..=63) => vec![7, k],
             (_, 64..=65) => vec![8, k],
             (_, 66..=74) => {
@@ -1311,10 +1937,28 @@ fn gen_case(rng: &mut Rng, thorough: bool) -> Vec<u64> {
         ops.push(op);
     }
     epilogue(rng, &mut ops);
-    assemble([max_inb, ndial, max_size, selfp, ccap], ops)
+    assemble([max_inb, ndial, max_size, selfp + extra_flags(rng), ccap], ops)
+}
+
+/// The variants this file knows how to number (error_code, dial_error_code) against the ones the
+/// translator found in the source: a variant the harness has no number for must not go unnoticed.
+fn tables_known() -> bool {
+    gen_tables::REQUEST_RESPONSE_ERROR == ["Rejected", "Canceled", "Timeout", "NotConnected", "TooLargePayload", "UnsupportedProtocol"]
+        && gen_tables::REJECT_REASON == ["SubstreamOpenError", "ConnectionClosed", "SubstreamClosed", "DialFailed"]
+        && gen_tables::IMMEDIATE_DIAL_ERROR
+            == ["PeerIdMissing", "TriedToDialSelf", "AlreadyConnected", "NoAddressAvailable", "TaskClosed", "ChannelClogged"]
+        && gen_tables::REQUEST_RESPONSE_EVENT == ["RequestReceived", "ResponseReceived", "RequestFailed"]
+        && gen_tables::INNER_REQUEST_RESPONSE_EVENT == gen_tables::REQUEST_RESPONSE_EVENT
+        && gen_tables::DIAL_OPTIONS == ["Dial", "Reject"]
+        && gen_tables::REQUEST_RESPONSE_COMMAND == ["SendRequest", "SendRequestWithFallback", "CancelRequest"]
+        && gen_tables::SUBSTREAM_ERROR.len() == 8
 }
 
 pub fn main(args: &Args) {
+    if !tables_known() {
+        eprintln!("c13: the variant tables extracted from the source differ from the ones this harness was written for");
+        std::process::exit(3);
+    }
     let seed = args.u64("seed", 1);
     let ncases = args.u64("cases", 100);
     let thorough = args.str("tier") == Some("thorough");
@@ -1334,9 +1978,16 @@ pub fn main(args: &Args) {
     if args.str("replay").is_some() {
         return;
     }
+    // --kind two | flood | guided: only cases of that generator (for experiments; ./check does not use it)
+    let kind = args.str("kind");
     for _ in 0..ncases {
         let mut r = rng.fork();
-        let c = gen_case(&mut r, thorough);
+        let c = match kind {
+            Some("two") => gen_two(&mut r, thorough),
+            Some("flood") => gen_flood(&mut r, thorough),
+            Some("guided") => gen_guided(&mut r, thorough),
+            _ => gen_case(&mut r, thorough),
+        };
         let (c, t) = run_case(&c);
         out.emit(&c, &t);
     }
